@@ -19,6 +19,7 @@ import (
 	"google.golang.org/protobuf/proto"
 
 	"github.com/tink-crypto/tink-go/v2/core/registry"
+	"github.com/tink-crypto/tink-go/v2/insecurecleartextkeyset"
 	"github.com/tink-crypto/tink-go/v2/internal/protoserialization"
 	"github.com/tink-crypto/tink-go/v2/key"
 	"github.com/tink-crypto/tink-go/v2/keyset"
@@ -48,7 +49,7 @@ func TestMain(m *testing.M) {
 	}
 	core.DeclareFaults("preemption", "preemption-inside-tink-call", "task-finished-handover", "free-run-fallback")
 	core.DeclareProbes("globally-sourced-randomness(semantic oracle)", "legacy-adapter", "multi-key-keyset", "handle-reads", "construct-under-schedule",
-		"registry-lookup", "keygen-under-schedule", "accept-rejects-corrupted", "race-build", "monitored-handle", "monitoring-events-compared")
+		"registry-lookup", "keygen-under-schedule", "accept-rejects-corrupted", "race-build", "monitored-handle", "monitoring-events-compared", "round-robin-plan", "site-targeted-plan")
 	stubkm.Register()
 	core.Main(m, prop, "sched", map[string]string{"everything in /repo": "real (instrumented copies via -overlay: yield call before every statement, semantics unchanged)",
 		"goroutine scheduling": "stub (simsched baton, plan drawn by rapid)", "crypto/rand": "stub (simrng, one lane per task)",
@@ -71,10 +72,10 @@ type result struct {
 
 type op struct {
 	name string
-	run  func() ([]byte, error)
+	run  func(sh *shared) ([]byte, error)
 	// semantic: byte equality with the sequential result is not required (randomness the harness cannot key by task);
 	// check validates the concurrent result instead.
-	check func(out []byte) error
+	check func(sh *shared, out []byte) error
 }
 
 type shared struct {
@@ -157,14 +158,29 @@ func maxCost() int {
 	return 1
 }
 
+// focus (env VSIM_FOCUS, e.g. "signature/mldsa") restricts the drawn class and key types: used for targeted
+// exploration; the registered checks leave it unset.
+var focus = os.Getenv("VSIM_FOCUS")
+
 func drawEntry(t *rapid.T, class string, label string) catalog.Entry {
 	all := catalog.ByClass(catalog.Class(class))
-	var es []catalog.Entry
+	// key type first, then an entry of that key type: rare key types (few catalogue entries) are drawn as often as
+	// the ones with many parameter combinations
+	byType := map[string][]catalog.Entry{}
+	var types []string
 	for _, e := range all {
-		if e.Cost <= maxCost() {
-			es = append(es, e)
+		if e.Cost <= maxCost() && (focus == "" || strings.HasPrefix(e.Name, focus)) && catalog.Quirk(e) == "" {
+			if _, ok := byType[e.KeyType]; !ok {
+				types = append(types, e.KeyType)
+			}
+			byType[e.KeyType] = append(byType[e.KeyType], e)
 		}
 	}
+	if len(types) == 0 {
+		t.Skip("focus excludes this class")
+	}
+	sort.Strings(types)
+	es := byType[types[rapid.IntRange(0, len(types)-1).Draw(t, label+".type")]]
 	return es[rapid.IntRange(0, len(es)-1).Draw(t, label)]
 }
 
@@ -204,6 +220,9 @@ func runSched(t *rapid.T) {
 		sh.entry = catalog.Entry{Name: sh.class + "/stubkm/" + pfx, KeyType: "stubkm"}
 	default:
 		sh.class = rapid.SampledFrom(workClasses).Draw(t, "class")
+		if focus != "" {
+			sh.class = strings.SplitN(focus, "/", 2)[0]
+		}
 		nKeys := rapid.IntRange(1, 3).Draw(t, "nKeys")
 		for i := 0; i < nKeys; i++ {
 			es = append(es, drawEntry(t, sh.class, fmt.Sprintf("entry%d", i)))
@@ -279,6 +298,7 @@ func runSched(t *rapid.T) {
 	// ---- sequential oracle: every task alone, on its own RNG lane
 	expected := make([][]result, nTasks)
 	expectedEvents := make([][]simmon.Event, nTasks)
+	firsts := make([][]uint32, nTasks) // per task: yield indices at which a site is reached for the first time, ascending
 	var seqYields uint64
 	mon.SetLaneFunc(func() int { return lane })
 	for i := range tasks {
@@ -286,13 +306,24 @@ func runSched(t *rapid.T) {
 		mon.Reset()
 		g.SetOffset(i, 0)
 		s1 := simsched.New(nil)
+		s1.First = make([]int32, nSites())
+		for k := range s1.First {
+			s1.First[k] = -1
+		}
 		s1.Run([]func(){func() {
 			for _, o := range tasks[i] {
-				out, err := o.run()
+				out, err := o.run(sh)
 				expected[i] = append(expected[i], result{out, err != nil})
 			}
 		}})
 		seqYields += s1.Yields
+		for _, f := range s1.First {
+			if f >= 0 {
+				firsts[i] = append(firsts[i], uint32(f))
+			}
+		}
+		sort.Slice(firsts[i], func(a, b int) bool { return firsts[i][a] < firsts[i][b] })
+		r.Count("distinct-sites-per-task", int64(len(firsts[i])))
 		expectedEvents[i] = append([]simmon.Event{}, mon.Events[i]...)
 		if len(s1.Panics) > 0 {
 			r.Violation("C18/panic-sequential:"+sh.entry.KeyType, fmt.Sprintf("task %d panicked when run alone: %v", i, s1.Panics[0]))
@@ -312,25 +343,70 @@ func runSched(t *rapid.T) {
 	}
 	nSteps := rapid.IntRange(1, maxSteps).Draw(t, "nSteps")
 	plan := make([]simsched.Step, nSteps)
-	per := uint32(seqYields/uint64(nSteps)) + 1
-	for i := range plan {
-		var bound uint32
-		switch rapid.IntRange(0, 4).Draw(t, "runForKind") {
-		case 0:
-			bound = 3
-		case 1:
-			bound = 24
-		case 2:
-			bound = 200
-		case 3:
-			bound = 2 * per
-		default:
-			bound = uint32(seqYields) + 1
+	// run lengths are log-uniform: every scale — the first statements of a call as well as the deep interior of a
+	// multi-million-statement signature — is equally likely to receive a preemption
+	maxExp := 1
+	for (uint64(1) << maxExp) < seqYields+2 {
+		maxExp++
+	}
+	logUniform := func(label string) uint32 {
+		e := rapid.IntRange(0, maxExp).Draw(t, label+"Exp")
+		lo, hi := uint32(0), uint32(1)
+		if e > 0 {
+			lo, hi = uint32(1)<<(e-1), uint32(1)<<e
 		}
-		plan[i] = simsched.Step{RunFor: rapid.Uint32Range(0, bound).Draw(t, "runFor"), SwitchTo: uint8(rapid.IntRange(0, nTasks-1).Draw(t, "switchTo"))}
+		return rapid.Uint32Range(lo, hi).Draw(t, label)
+	}
+	planKind := rapid.SampledFrom([]string{"independent", "independent", "round-robin", "site-targeted", "site-targeted"}).Draw(t, "planKind")
+	if planKind == "site-targeted" {
+		// Park task a right after it reaches some statement for the first time (drawn uniformly over the DISTINCT
+		// statements of its sequential execution, so a three-statement window inside a million-statement call is as
+		// likely as any other place), let task b run — to completion or up to one of its own first-reached statements —
+		// and continue from there with an independent plan. A parked task keeps its recent access history, which is
+		// what ThreadSanitizer needs to report a conflict with what it did just before being parked.
+		a := rapid.IntRange(0, nTasks-1).Draw(t, "parkTask")
+		b := rapid.IntRange(0, nTasks-2).Draw(t, "thenTask") // index among the others, in index order
+		at := uint32(0)
+		if len(firsts[a]) > 0 {
+			at = firsts[a][rapid.IntRange(0, len(firsts[a])-1).Draw(t, "parkSite")] + uint32(rapid.IntRange(0, 2).Draw(t, "parkDelta"))
+		}
+		plan[0] = simsched.Step{RunFor: at, SwitchTo: uint8(a)}
+		if nSteps > 1 {
+			bTask := b
+			if bTask >= a {
+				bTask++
+			}
+			run := uint32(1) << 30
+			if rapid.Bool().Draw(t, "thenToSite") && len(firsts[bTask]) > 0 {
+				run = firsts[bTask][rapid.IntRange(0, len(firsts[bTask])-1).Draw(t, "thenSite")] + uint32(rapid.IntRange(0, 2).Draw(t, "thenDelta"))
+			}
+			plan[1] = simsched.Step{RunFor: run, SwitchTo: uint8(b)}
+		}
+		for i := 2; i < len(plan); i++ {
+			plan[i] = simsched.Step{RunFor: logUniform("runFor"), SwitchTo: uint8(rapid.IntRange(0, nTasks-1).Draw(t, "switchTo"))}
+		}
+		r.Probe("site-targeted-plan")
+	} else if planKind == "round-robin" {
+		// all tasks advance in lock step with one quantum: whatever a call does in its first q statements
+		// (lazy initialisation, check-then-act) overlaps with the same phase of every other task
+		q := logUniform("quantum")
+		for i := range plan {
+			plan[i] = simsched.Step{RunFor: q, SwitchTo: simsched.Next}
+		}
+		r.Probe("round-robin-plan")
+	} else {
+		for i := range plan {
+			plan[i] = simsched.Step{RunFor: logUniform("runFor"), SwitchTo: uint8(rapid.IntRange(0, nTasks-1).Draw(t, "switchTo"))}
+		}
 	}
 
-	// ---- concurrent phase
+	// ---- concurrent phase: on a COLD twin of the shared object — the keyset re-read from its serialized form and
+	// primitives nobody has used yet — so that lazily initialised state is first touched under the schedule, not
+	// warmed up by the sequential oracle
+	cold, err := coldTwin(sh, monitored)
+	if err != nil {
+		t.Fatalf("harness: cannot build the cold twin of %s: %v", sh.entry.Name, err)
+	}
 	got := make([][]result, nTasks)
 	fns := make([]func(), nTasks)
 	for i := range tasks {
@@ -339,7 +415,7 @@ func runSched(t *rapid.T) {
 		got[i] = make([]result, 0, len(tasks[i]))
 		fns[i] = func() {
 			for _, o := range tasks[i] {
-				out, err := o.run()
+				out, err := o.run(cold)
 				got[i] = append(got[i], result{out, err != nil})
 			}
 		}
@@ -404,7 +480,7 @@ func runSched(t *rapid.T) {
 			}
 			if o.check != nil {
 				if !c.err {
-					if err := o.check(c.out); err != nil {
+					if err := o.check(sh, c.out); err != nil {
 						r.Violation("C18/result-invalid:"+sh.class+"/"+sh.entry.KeyType+":"+opClass(o.name), fmt.Sprintf("task %d op %s: concurrent result is not accepted by the recipient: %v", i, o.name, err))
 						return
 					}
@@ -458,6 +534,31 @@ func runSched(t *rapid.T) {
 	r.End(fmt.Sprintf("%s|%s|%s|ops:%s|tasks%d|pre%s|%x", scenario, sh.class, sh.entry.KeyType, strings.Join(uniq(opNames), ","), nTasks, passClass, hsh&0xffff), inside > 0)
 }
 
+func coldTwin(sh *shared, monitored bool) (*shared, error) {
+	ks := insecurecleartextkeyset.KeysetMaterial(sh.h)
+	var opts []keyset.Option
+	if monitored {
+		opts = append(opts, keyset.WithAnnotations(map[string]string{"sim": "sched"}))
+	}
+	h, err := insecurecleartextkeyset.Read(&keyset.MemReaderWriter{Keyset: ks}, opts...)
+	if err != nil {
+		// some keysets cannot be re-read from their own serialization (today: ML-DSA keys of the
+		// WITH_ID_REQUIREMENT variant, which keyset validation refuses); then only the primitives are cold
+		core.CountGlobal("cold-twin-shares-handle:" + sh.entry.KeyType)
+		h = sh.h
+	}
+	c := &shared{class: sh.class, entry: sh.entry, h: h, semantic: sh.semantic, outputs: sh.outputs}
+	if c.prod, err = classes.NewProducer(c.class, h); err != nil {
+		return nil, err
+	}
+	if sh.acc != nil {
+		if c.acc, err = classes.NewAcceptor(c.class, h); err != nil {
+			return nil, err
+		}
+	}
+	return c, nil
+}
+
 //go:norace
 func onPass(from, to, site int) {
 	if arenaDirtyAt < 0 && sumArena() != arenaSum {
@@ -467,6 +568,13 @@ func onPass(from, to, site int) {
 }
 
 var passCounter int
+
+func nSites() int {
+	if len(sites) > 0 {
+		return len(sites)
+	}
+	return 40000
+}
 
 func siteName(id int) string {
 	if id < 0 {
@@ -520,15 +628,15 @@ func drawOp(t *rapid.T, r *core.Run, sh *shared, scenario, label string) op {
 	switch k {
 	case "produce":
 		msg, aux := slice(t, label+"msg"), slice(t, label+"aux")
-		o := op{name: "produce", run: func() ([]byte, error) { return sh.prod.Produce(msg, aux) }}
+		o := op{name: "produce", run: func(sh *shared) ([]byte, error) { return sh.prod.Produce(msg, aux) }}
 		if sh.semantic || (!sh.prod.Deterministic && false) {
-			o.check = func(out []byte) error { return sh.acc.Accept(out, msg, aux) }
+			o.check = func(sh *shared, out []byte) error { return sh.acc.Accept(out, msg, aux) }
 		}
 		return o
 	case "accept":
 		i := rapid.IntRange(0, len(sh.outputs)-1).Draw(t, label+"which")
 		pre := sh.outputs[i]
-		return op{name: "accept", run: func() ([]byte, error) { return nil, sh.acc.Accept(pre[0], pre[1], pre[2]) }}
+		return op{name: "accept", run: func(sh *shared) ([]byte, error) { return nil, sh.acc.Accept(pre[0], pre[1], pre[2]) }}
 	case "accept-corrupted":
 		r.Probe("accept-rejects-corrupted")
 		i := rapid.IntRange(0, len(sh.outputs)-1).Draw(t, label+"which")
@@ -537,13 +645,13 @@ func drawOp(t *rapid.T, r *core.Run, sh *shared, scenario, label string) op {
 		if len(bad) > 0 {
 			bad[rapid.IntRange(0, len(bad)-1).Draw(t, label+"pos")] ^= 0x20
 		}
-		return op{name: "accept-corrupted", run: func() ([]byte, error) { return nil, sh.acc.Accept(bad, pre[1], pre[2]) }}
+		return op{name: "accept-corrupted", run: func(sh *shared) ([]byte, error) { return nil, sh.acc.Accept(bad, pre[1], pre[2]) }}
 	case "keysetinfo":
-		return op{name: "keysetinfo", run: func() ([]byte, error) { return proto.MarshalOptions{Deterministic: true}.Marshal(sh.h.KeysetInfo()) }}
+		return op{name: "keysetinfo", run: func(sh *shared) ([]byte, error) { return proto.MarshalOptions{Deterministic: true}.Marshal(sh.h.KeysetInfo()) }}
 	case "string":
-		return op{name: "string", run: func() ([]byte, error) { return []byte(sh.h.String()), nil }}
+		return op{name: "string", run: func(sh *shared) ([]byte, error) { return []byte(sh.h.String()), nil }}
 	case "entries":
-		return op{name: "entries", run: func() ([]byte, error) {
+		return op{name: "entries", run: func(sh *shared) ([]byte, error) {
 			var sb strings.Builder
 			p, err := sh.h.Primary()
 			if err != nil {
@@ -562,7 +670,7 @@ func drawOp(t *rapid.T, r *core.Run, sh *shared, scenario, label string) op {
 			return []byte(sb.String()), nil
 		}}
 	case "public":
-		return op{name: "public", run: func() ([]byte, error) {
+		return op{name: "public", run: func(sh *shared) ([]byte, error) {
 			pub, err := sh.h.Public()
 			if err != nil {
 				return nil, err
@@ -573,7 +681,7 @@ func drawOp(t *rapid.T, r *core.Run, sh *shared, scenario, label string) op {
 		r.Probe("construct-under-schedule")
 		msg, aux := slice(t, label+"msg"), slice(t, label+"aux")
 		pre := sh.outputs[0]
-		return op{name: "construct", run: func() ([]byte, error) {
+		return op{name: "construct", run: func(sh *shared) ([]byte, error) {
 			if sh.acc != nil {
 				a, err := classes.NewAcceptor(sh.class, sh.h)
 				if err != nil {
@@ -594,7 +702,7 @@ func drawOp(t *rapid.T, r *core.Run, sh *shared, scenario, label string) op {
 		}}
 	case "registry":
 		r.Probe("registry-lookup")
-		return op{name: "registry", run: func() ([]byte, error) {
+		return op{name: "registry", run: func(sh *shared) ([]byte, error) {
 			var sb strings.Builder
 			for _, ki := range sh.h.KeysetInfo().GetKeyInfo() {
 				km, err := registry.GetKeyManager(ki.GetTypeUrl())
@@ -607,7 +715,7 @@ func drawOp(t *rapid.T, r *core.Run, sh *shared, scenario, label string) op {
 			return []byte(sb.String()), nil
 		}}
 	case "serialize-parse":
-		return op{name: "serialize-parse", run: func() ([]byte, error) {
+		return op{name: "serialize-parse", run: func(sh *shared) ([]byte, error) {
 			var all []byte
 			for i := 0; i < sh.h.Len(); i++ {
 				e, _ := sh.h.Entry(i)
@@ -633,9 +741,9 @@ func drawOp(t *rapid.T, r *core.Run, sh *shared, scenario, label string) op {
 			e = sh.entry
 		}
 		if catalog.Pooled(e) || e.Name == "" {
-			return op{name: "string", run: func() ([]byte, error) { return []byte(sh.h.String()), nil }}
+			return op{name: "string", run: func(sh *shared) ([]byte, error) { return []byte(sh.h.String()), nil }}
 		}
-		return op{name: "keygen", run: func() ([]byte, error) {
+		return op{name: "keygen", run: func(sh *shared) ([]byte, error) {
 			m := keyset.NewManager()
 			id, err := m.AddNewKeyFromParameters(e.Params)
 			if err != nil {
